@@ -224,13 +224,13 @@ def make_attempt_context(
 # ---------------------------------------------------------------------------
 
 
-def build_aborted_outcome(ctx: ExecutionContext) -> RetryOutcome[Any]:
+def build_aborted_outcome(ctx: ExecutionContext, attempts: int = 0) -> RetryOutcome[Any]:
     """Build outcome for aborted execution (no retry configured)."""
     return _build_policy_outcome(
         ok=False,
         value=None,
         stop_reason=StopReason.ABORTED,
-        attempts=0,
+        attempts=attempts,
         last_class=None,
         last_exception=None,
         last_result=None,
